@@ -111,7 +111,11 @@ func TestC05(t *testing.T) {
 		nDP := rapid.IntRange(1, 3).Draw(t, "dps")
 		dps := []string{gen.RootCrlURL, "https://crl.example.test/b.der", "https://crl.example.test/c.der"}[:nDP]
 		qeSameKey := rapid.IntRange(0, 2).Draw(t, "qeSignerSharesKeyWithTcbSigner") == 0
-		p := gen.NewPKI(gen.PKISpec{Seed: seed, RootCRLDP: dps, QeSameKey: qeSameKey})
+		oddAKI := rapid.IntRange(0, 2).Draw(t, "oddAuthorityKeyIds") == 0
+		p := gen.NewPKI(gen.PKISpec{Seed: seed, RootCRLDP: dps, QeSameKey: qeSameKey, OddAKI: oddAKI})
+		if oddAKI {
+			gen.Class("authority-key-identifiers-that-match-nothing")
+		}
 		if qeSameKey {
 			gen.Class("qe-signer-is-a-second-certificate-for-the-tcb-signer-key")
 		}
@@ -119,9 +123,20 @@ func TestC05(t *testing.T) {
 		if rapid.Bool().Draw(t, "bigserial") {
 			w.LeafSpec.Serial = append([]byte{0x7f}, s.Bytes(19)...)
 		}
-		if rapid.IntRange(0, 3).Draw(t, "defaultTimeSet") == 0 {
+		if oddAKI {
+			w.LeafSpec.AKI = []byte{0xc1, 0xc2, 0xc3, 0xc4, 0xc5, 0xc6, 0xc7, 0xc8, 0xc9, 0xca, 0xcb, 0xcc, 0xcd, 0xce, 0xcf, 0xd0, 0xd1, 0xd2, 0xd3, 0xd4}
+		}
+		pastTimes := false
+		switch rapid.IntRange(0, 4).Draw(t, "defaultTimeSet") {
+		case 0:
 			w.UseRealNow() // Options.Now == nil, as RootOfTrustToOptions / the check tool use it
 			gen.Class("default-time-set")
+		case 1:
+			// a verification pinned years BEFORE the wall clock (an audit of an old quote): what counts as current is the pinned time
+			shift := -10 * 365 * 24 * time.Hour
+			w.Times = verify.TimeSet{PckCertChain: w.Times.PckCertChain.Add(shift), TcbInfo: w.Times.TcbInfo.Add(shift), QeIdentity: w.Times.QeIdentity.Add(shift), PckCrl: w.Times.PckCrl.Add(shift), RootCaCrl: w.Times.RootCaCrl.Add(shift)}
+			pastTimes = true
+			gen.Class("times-pinned-before-the-wall-clock")
 		}
 		w.Build()
 		// an entry's revocation DATE is informational: a listed serial is revoked whatever its date
@@ -267,12 +282,63 @@ func TestC05(t *testing.T) {
 		dpOutcome := make([]string, nDP)
 		firstUsable := -1 // first DP (in order) that returns a body which parses as a CRL
 		firstKind := ""
-		for i, u := range dps {
-			dpOutcome[i] = rapid.SampledFrom(outcomes).Draw(t, fmt.Sprintf("dp%d", i))
-			w.Resp[u] = body(dpOutcome[i], rootDER, pckDER)
-			if firstUsable < 0 && (dpOutcome[i] == "ok" || dpOutcome[i] == "other-crl") {
-				firstUsable, firstKind = i, dpOutcome[i]
+		// the distribution points need not serve the same list: the "alternative" list differs from the plan's in whether
+		// it names the intermediate CA, and (for pinned-past verifications) is due between the pinned time and the wall clock
+		altPlan := root
+		altPlan.contains = map[string]bool{}
+		for k, v := range root.contains {
+			altPlan.contains[k] = v
+		}
+		altSpec := gen.CRLSpec{Revoked: root.revoked}
+		if root.contains["int"] {
+			altSpec.Revoked = nil
+			for _, e := range root.revoked {
+				if new(big.Int).SetBytes(e).Cmp(p.Int.X.SerialNumber) != 0 {
+					altSpec.Revoked = append(altSpec.Revoked, e)
+				}
 			}
+			altPlan.contains["int"] = false
+		} else {
+			altSpec.Revoked = append(append([][]byte{}, root.revoked...), p.Int.X.SerialNumber.Bytes())
+			altPlan.contains["int"] = true
+		}
+		if pastTimes {
+			altSpec.NextUpdate = w.Times.RootCaCrl.Add(2 * 365 * 24 * time.Hour)
+		}
+		altDER := encode(p.Root, p.Root.Key, altSpec)
+		expiredEmpty := encode(p.Root, p.Root.Key, gen.CRLSpec{NextUpdate: w.Times.RootCaCrl.Add(-time.Hour), ThisUpdate: w.Times.RootCaCrl.Add(-48 * time.Hour)})
+		dpAlt := make([]bool, nDP)
+		usedPlan := root
+		var scripts = map[string][]gen.Response{}
+		for i, u := range dps {
+			dpOutcome[i] = rapid.SampledFrom(append(append([]string{}, outcomes...), "changing", "changing")).Draw(t, fmt.Sprintf("dp%d", i))
+			dpAlt[i] = root.signer == "correct" && rapid.IntRange(0, 2).Draw(t, fmt.Sprintf("dpAlt%d", i)) == 0
+			own := rootDER
+			if dpAlt[i] {
+				own = altDER
+			}
+			if dpOutcome[i] == "changing" {
+				// the first answer is an authentic list that is past its nextUpdate and names nobody; asked again, the
+				// endpoint serves the current list
+				scripts[u] = []gen.Response{{Body: expiredEmpty}}
+				w.Resp[u] = gen.Response{Body: own}
+			} else {
+				w.Resp[u] = body(dpOutcome[i], own, pckDER)
+			}
+			if firstUsable < 0 && (dpOutcome[i] == "ok" || dpOutcome[i] == "other-crl" || dpOutcome[i] == "changing") {
+				firstUsable, firstKind = i, dpOutcome[i]
+				if dpAlt[i] {
+					usedPlan = altPlan
+				}
+			}
+		}
+		root = usedPlan
+		newGetter := func() *gen.Getter {
+			g := w.NewGetter()
+			for u, sc := range scripts {
+				g.Script[u] = append([]gen.Response{}, sc...)
+			}
+			return g
 		}
 		// ---- model ----
 		reject, dontCare := "", ""
@@ -297,6 +363,9 @@ func TestC05(t *testing.T) {
 					dontCare = "first usable distribution point serves a CRL of another issuer, a later one is good"
 				}
 			}
+		}
+		if firstKind == "changing" {
+			reject = "the root CRL first obtained is past its nextUpdate"
 		}
 		if root.signer != "correct" && firstKind == "ok" {
 			reject = "root CRL signer " + root.signer
@@ -331,14 +400,14 @@ func TestC05(t *testing.T) {
 		// ---- run ----
 		rp := w.CaseFile(gen.LvlCRL, nil, nil, nil, map[bool]string{true: "reject", false: "accept"}[reject != ""])
 		rp["history"] = history
-		o := w.Options(gen.LvlCRL, w.NewGetter(), nil)
+		o := w.Options(gen.LvlCRL, newGetter(), nil)
 		gen.Eval()
 		v := gen.Call(func() error { return verify.RawTdxQuote(w.Raw, o) })
 		if v.Panicked() {
 			gen.Fail(t, gen.Violation{Key: "panic@" + gen.PanicSite(v.Stack), Oracle: "verification returns a verdict", Detail: v.Panic, Replay: rp})
 			return
 		}
-		desc := fmt.Sprintf("pck{%s,%s,hdr=%s,lists=%v} root{%s,dps=%v,lists=%v} qeSignerSharesKey=%v history=%s", pck.signer, pck.outcome, pck.header, keysOf(pck.contains), root.signer, dpOutcome, keysOf(root.contains), qeSameKey, history)
+		desc := fmt.Sprintf("pck{%s,%s,hdr=%s,lists=%v} root{%s,dps(outcome,alternative-list)=%v,lists=%v} qeSignerSharesKey=%v history=%s", pck.signer, pck.outcome, pck.header, keysOf(pck.contains), root.signer, fmt.Sprint(dpOutcome, dpAlt), keysOf(root.contains), qeSameKey, history)
 		if reject != "" && v.Accepted() {
 			gen.Fail(t, gen.Violation{Key: "accepts-despite:" + keyClass(reject), Oracle: "with revocation on, accepted only if both CRLs were obtained and authenticated and none of the four serials is listed", Detail: desc + ": " + reject, Replay: rp})
 			return
@@ -348,14 +417,14 @@ func TestC05(t *testing.T) {
 			return
 		}
 		// without CheckRevocations the CRL data is irrelevant
-		o2 := w.Options(gen.LvlColl, w.NewGetter(), nil)
+		o2 := w.Options(gen.LvlColl, newGetter(), nil)
 		gen.Eval()
 		if v2 := gen.Call(func() error { return verify.RawTdxQuote(w.Raw, o2) }); !v2.Accepted() {
 			rp2 := w.CaseFile(gen.LvlColl, nil, nil, nil, "accept")
 			gen.Fail(t, gen.Violation{Key: "crl-data-matters-without-revocation-check", Oracle: "CRL data only matters when revocation checking is on", Detail: desc + ": " + v2.String(), Replay: rp2})
 			return
 		}
-		o3 := w.Options(gen.LvlCRLNoColl, w.NewGetter(), nil)
+		o3 := w.Options(gen.LvlCRLNoColl, newGetter(), nil)
 		if rapid.Bool().Draw(t, "optionsFromRootOfTrustConfig") {
 			// the same request expressed as a root-of-trust configuration (check_crl without get_collateral)
 			var oc *verify.Options
